@@ -76,7 +76,15 @@ func (in *inliner) normalizeMethodValues(pkgs []*packages.Package, excluded func
 						return true
 					}
 					v, _ := n.objOf(id).(*types.Var)
-					if v == nil || v.IsField() || v.Parent() == pk.Types.Scope() || n.assignedAfterDecl(fd.Body, v) {
+					// (a pointer-receiver method of an addressable struct variable
+					// binds the variable's address, and so does the call inside
+					// the literal: assignments to the variable change nothing)
+					bindsAddr := false
+					if v != nil {
+						_, vIsPtr := v.Type().Underlying().(*types.Pointer)
+						bindsAddr = ptr && !vIsPtr
+					}
+					if v == nil || v.IsField() || v.Parent() == pk.Types.Scope() || (!bindsAddr && n.assignedAfterDecl(fd.Body, v)) {
 						return true
 					}
 					// the literal's signature, spelled with the file's imports
